@@ -9,3 +9,49 @@ package weights
 //@ func (*Report).SortWeighted$2
 //@   requires n1 != nil && n2 != nil
 //@   ensures [C06] @tie: result == 0 ==> n1.Segment == n2.Segment
+//
+// Report.Add walks the weights tree (trusted: tree traversal); it touches only the report.
+//@ func (*Report).Add
+//@   trusted
+//@   requires r != nil
+//@   modifies fields(r.weights), r.dates[*]
+//
+// Execute (the day-end callback): on a period end day every commodity with a value contributes its
+// share value/total under its (mapped) classification path; the universe - the classification of every
+// commodity - is only read: the same commodity is classified the same way on every reporting date.
+//@ func (Query).Execute$1
+//@   requires d != nil && d.Performance != nil && r != nil && wfMapping(q.Mapping) && days != nil && (forall c *commodity.Commodity :: {key(d.Performance.V1, c)} (c in d.Performance.V1) ==> c != nil)
+//@   modifies fields(r.weights), r.dates[*]
+//@   callback Add=0
+//@   ghost total real = 0
+//@   ensures result == nil
+//@   ensures [C20] @skipped: !(d in days) ==> tlen() == old(tlen())
+//@   loop 1 invariant tlen() == old(tlen())
+//@   loop 2 invariant tlen() >= old(tlen())
+//@   loop 2 invariant [C20] @share: forall i int :: {targ("Add", 2, i)} entry(tlen()) <= i && i < tlen() ==> (exists c *commodity.Commodity :: (c in d.Performance.V1) && targ("Add", 2, i) == d.Performance.V1[c] / total && targ("Add", 1, i) == d.Date)
+//
+// Execute (constructor): the period end days are added to the builder (so that they exist when the
+// journal is built afterwards); nothing else is touched.
+//@ func (Query).Execute
+//@   requires wfBuilder(j) && r != nil
+//@   modifies j.days[*]
+//@   callback Days=0
+//@   ensures [C20] result != nil && wfBuilder(j) && tlen() == old(tlen()) + 1 && trecv("Days", old(tlen())) == j
+//
+// PropagateWeights (the visitor): a node's weight at a date grows by the weights of its children at
+// that date - every child counts, whether or not the node is a leaf of the universe; dates that no child
+// has keep their weight; the children's own weights are not changed.
+//@ def childOK(n *Node) bool := n != nil && (forall k string :: {key(n.Children, k)} (k in n.Children) ==> n.Children[k] != nil && n.Children[k] != n
+//@     && (n.Children[k].Value.Weights == nil || n.Children[k].Value.Weights != n.Value.Weights) && live(n.Children[k].Value.Weights))
+//@ func (*Report).PropagateWeights$1
+//@   requires childOK(n)
+//@   modifies n.Value.Weights, n.Value.Weights[*]
+//@   ensures [C20] @nonnil: n.Value.Weights != nil && (old(n.Value.Weights) != nil ==> n.Value.Weights == old(n.Value.Weights))
+//@   ensures [C20] @covers: forall k string, dt time.Time :: {key(n.Children, k), key(n.Value.Weights, dt)} (k in n.Children) && (dt in n.Children[k].Value.Weights) ==> (dt in n.Value.Weights)
+//@   loop 1 invariant n.Value.Weights != nil && childOK(n) && (old(n.Value.Weights) != nil ==> n.Value.Weights == old(n.Value.Weights)) && dom(n.Children) == old(dom(n.Children)) && vals(n.Children) == old(vals(n.Children))
+//@   loop 1 invariant forall k string, dt time.Time :: {key(n.Children, k), key(n.Value.Weights, dt)} $seen[k] && (k in n.Children) && (dt in n.Children[k].Value.Weights) ==> (dt in n.Value.Weights)
+//@   loop 2 invariant n.Value.Weights != nil && childOK(n) && (old(n.Value.Weights) != nil ==> n.Value.Weights == old(n.Value.Weights)) && dom(n.Children) == old(dom(n.Children)) && vals(n.Children) == old(vals(n.Children))
+//@   loop 2 invariant ch != nil && ch != n && (exists k string :: (k in n.Children) && n.Children[k] == ch) && ch.Value.Weights != n.Value.Weights
+//@   loop 2 invariant forall dt time.Time :: {key(n.Value.Weights, dt)} entry(dt in n.Value.Weights) ==> (dt in n.Value.Weights)
+//@   loop 2 invariant forall dt time.Time :: {$seen[dt]} $seen[dt] ==> (dt in n.Value.Weights) && (dt in ch.Value.Weights)
+//@   loop 2 invariant forall k string, dt time.Time :: {key(n.Children, k), key(n.Value.Weights, dt)} $seen1[k] && n.Children[k] != ch && (k in n.Children) && (dt in n.Children[k].Value.Weights) ==> (dt in n.Value.Weights)
